@@ -138,6 +138,14 @@ impl<T> Out<T> {
             Out::Panic(l, m) => Out::Panic(l, m),
         }
     }
+    /// Render without consuming, formatting the Ok value with `f`.
+    pub fn show_with(&self, f: impl FnOnce(&T) -> String) -> String {
+        match self {
+            Out::Ok(v) => format!("Ok({})", f(v)),
+            Out::Err(k, m) => format!("Err({k}: {m})"),
+            Out::Panic(l, m) => format!("Panic({l}: {m})"),
+        }
+    }
     pub fn kind_str(&self) -> String {
         match self {
             Out::Ok(_) => "Ok".into(),
